@@ -508,8 +508,4 @@ pub async fn plan_compaction(""", expect="mutator:dataset::optimize::drop_old_fi
          expect="new-indices-checked:CreateIndex"),
     dict(name="c13_remap_not_chained", prop="C13", file="rust/lance-index/src/frag_reuse.rs", what="remap_row_id looks every map up with the original address",
          old="                    .get(&mapped_value.unwrap())", new="                    .get(&row_id)", expect="ORIGIN-remap-chained"),
-    dict(name="c24_backfill_not_pruned", prop="C24", file=TX, what="a back-filled fragment is not handed to the index prune",
-         old="                    modified_fragments.push(new_frag.clone());\n                    final_fragments.push(new_frag);",
-         new="                    if !columns_covered.is_disjoint(&new_file.fields.iter().collect()) {\n                        modified_fragments.push(new_frag.clone());\n                    }\n                    final_fragments.push(new_frag);",
-         expect="every-replaced-fragment-pruned"),
 ]
